@@ -27,7 +27,7 @@ PANICKY = (r"Result::<.*>::unwrap$", r"Result::<.*>::expect$", r"Option::<.*>::u
 
 def _pool_closures(F):
     out = []
-    for f in F.fns:
+    for f in F.live_fns:
         if "blocks" not in f:
             continue
         for i, blk in enumerate(f["blocks"]):
@@ -62,7 +62,8 @@ def r1_pool_task(cx):
             sites = _panicky_sites(F, g)
             # lock poisoning unwraps are not damage-related (LockResult)
             sites = [s for s in sites if not _is_lock_unwrap(F, g, s)]
-            cx.ob("R1", "R1/no-abort-in-pool/%s" % g["name"], not sites, g,
+            # closures are keyed without their index (it shifts when an unrelated closure is added before them)
+            cx.ob("R1", "R1/no-abort-in-pool/%s" % re.sub(r"\{closure#\d+\}", "{closure}", g["name"]), not sites, g,
                   "code running on the rayon pool must not unwrap/expect/panic (a panic there aborts the process): %s" % sites)
 
 
@@ -221,7 +222,7 @@ def r4_debug_only_guards(cx):
         f = F.fns[x]
         if "blocks" not in f or "creator::" in f["name"]:
             continue
-        if x in F.transparent and any(f["name"] in v for v in F.inlined.values()):
+        if x in F.absorbed:
             continue  # a helper that did not exist at the pinned commit: its statements are accounted for in its callers
         sites = set()
         for blk in f["blocks"]:
@@ -351,8 +352,25 @@ def r6_size_arithmetic(cx):
                         go |= _sig(b, gt["op"])
                     else:
                         go = _sig(b, gt["args"][0]) | _sig(b, gt["args"][1])
-                    # both operands of the subtraction must appear in the comparison
-                    if all(_sig(b, o) & go for o in ops):
+                    # both operands of the subtraction must appear in the comparison (an operand that is a pure
+                    # constant -- literal or named -- must be the constant the other one is compared with)
+                    gc = set()
+                    if gt["k"] == "switch":
+                        for j, ct in b.origin_calls(gt["op"], through_calls=False):
+                            for a in ct["args"]:
+                                gc |= {x for x in b.origins(a) if x[0] == "const"}
+                        gc |= {x for x in b.origins(gt["op"]) if x[0] == "const"}
+                    else:
+                        gc = {x for a in gt["args"][:2] for x in b.origins(a) if x[0] == "const"}
+
+                    def covered(o):
+                        sg = _sig(b, o)
+                        if sg:
+                            return bool(sg & go)
+                        # (a `&CONST` operand of a comparison is a promoted constant, which has no comparable identity:
+                        # any constant on the guard's side is accepted -- the value of the bound is not decided here)
+                        return bool(gc)
+                    if all(covered(o) for o in ops):
                         guarded = True
             ln = (t or s).get("ln")
             ops = t["args"] if t else [s["rv"]["a"], s["rv"]["b"]]
@@ -374,7 +392,7 @@ def r7_errors_not_swallowed(cx):
     F = cx.F
     control = 0
     n = 0
-    for f in F.fns:
+    for f in F.live_fns:
         if "blocks" not in f or "creator::" in f["name"] or f["name"].startswith("cmd_utils") or "explorable" in f["name"]:
             continue
         for blk in f["blocks"]:
